@@ -884,6 +884,11 @@ def r56(ctx: Ctx) -> RuleReport:
                         elt = expand(ctx, fi, apps[0].args[0], apps[0], pure_only=False)
                         par = ctx.repo.parent_map(fi.node).get(id(ctx.repo.parent_map(fi.node).get(id(apps[0]))))
                         filtered = isinstance(par, ast.If)
+    if isinstance(items, ast.Call) and norm(items.func) == 'map' and len(items.args) == 2 and isinstance(items.args[0], ast.Name):
+        # map(helper, triples): one text per triple, produced by the helper
+        it_src, filtered, names = norm(items.args[1]), False, []
+        elt = ast.copy_location(ast.Call(func=items.args[0], args=[ast.Name(id='_triple', ctx=ast.Load())], keywords=[]), items)
+        ast.fix_missing_locations(elt)
     if isinstance(items, (ast.ListComp, ast.GeneratorExp)) and len(items.generators) == 1:
         g = items.generators[0]
         it_src, elt, filtered = norm(g.iter), items.elt, bool(g.ifs)
@@ -906,6 +911,20 @@ def r56(ctx: Ctx) -> RuleReport:
                 elt = hr[0].value if not isinstance(hr[0].value, ast.Name) else single_def(ctx, h, hr[0].value)
                 names = [norm(x) for x in unp3.targets[0].elts]
     tpl = _template(elt)
+    helper_fi = None
+    if isinstance(elt, ast.AST) and 'h' in dir() and names:
+        helper_fi = locals().get('h')
+    if tpl is not None and helper_fi is not None:
+        # named temporaries of the helper (relation = role.lstrip(':')) stand for their definitions
+        tpl2 = []
+        for k_, x_ in tpl:
+            if k_ == 'field' and x_.isidentifier() and x_ not in names:
+                d_ = single_def(ctx, helper_fi, ast.Name(id=x_, ctx=ast.Load()))
+                defs_ = [v_ for v_ in ctx.cg.local_assigns(helper_fi).get(x_, []) if isinstance(v_, ast.AST)]
+                if len(defs_) == 1:
+                    x_ = norm(defs_[0])
+            tpl2.append((k_, x_))
+        tpl = tpl2
     want = None
     if names and len(names) == 3:
         s_, r_, t_ = names
